@@ -1235,3 +1235,126 @@ def matcher_reads_normalised_text(ctx, rule):
         b, bi, node, what = bad[0]
         ctx.fail(rule, key, where(b, bi, node), "%s reads %s on the matching path: case and accents of the query/title leak into "
                  "the comparison" % (b.id, what), {"witness": "query 'METAL' (or 'été') no longer matches 'metal' ('ete')"})
+
+
+def trans_gap_penalty(ctx, rule):
+    """R08.g (value part, region-wise A11): for a pair of consecutive matches (prev, next) score_trans_down adds nothing
+    when next.offset = prev.offset + 1 and at least 1 when next.offset >= prev.offset + 2 — the strict preference of
+    'u v x' over 'u x v'.  prev / next are told apart by their position in the pair (tuple field or window index 0 / 1); the
+    pair source must list the earlier match first."""
+    from .. import regions as RG_
+    from .. import bounds as B_
+    fb = ctx.facts.one("search::score::score_trans_down")
+    if not ctx.require(rule, "score_trans_down", fb):
+        return
+    key = "trans-gap-penalty"
+    # the body that handles one pair: the function itself (loop form) or the closure mapped over the pairs
+    cands = [fb] + U.nested_closures(ctx, fb)
+    verdicts = []
+    for body in cands:
+        sy = ctx.sym(body)
+        cfg = ctx.cfg(body)
+        offs = {}
+        for bi, bl in enumerate(body.blocks):
+            if bl["cleanup"]:
+                continue
+            exprs = [sy.rvalue(st["rv"]) for st in bl["stmts"] if st["k"] == "assign"]
+            if bl["term"] and bl["term"]["k"] == "switch":
+                exprs.append(sy.operand(bl["term"]["discr"]))
+            for e in exprs:
+                for x in S.walk(e):
+                    if isinstance(x, tuple) and x and x[0] == "field" and str(x[2]) == "offset":
+                        base = S.strip_sites(S.strip_refs(x[1]))
+                        pos = None
+                        if base[0] == "field" and str(base[2]) in ("0", "1"):
+                            pos = int(base[2])
+                        elif base[0] == "cidx" and base[2] in (0, 1) and not base[3]:
+                            pos = base[2]
+                        elif base[0] == "index" and U.is_const(S.strip_refs(base[2])) and S.const_value(S.strip_refs(base[2])) in (0, 1):
+                            pos = S.const_value(S.strip_refs(base[2]))
+                        elif base[0] == "call" and base[1].endswith("Index::index") and len(base[2]) == 2 and \
+                                U.is_const(S.strip_refs(base[2][1])) and S.const_value(S.strip_refs(base[2][1])) in (0, 1):
+                            pos = S.const_value(S.strip_refs(base[2][1]))
+                        if pos is not None:
+                            offs.setdefault(pos, set()).add(S.strip_sites(S.strip_refs(x)))
+        if set(offs) != {0, 1} or any(len(v) != 1 for v in offs.values()):
+            continue
+        P = B_.lin(list(offs[0])[0])
+        N = B_.lin(list(offs[1])[0])
+        regions = [("adjacent", [B_.ge(N, P.plus(1), "next = prev+1"), B_.ge(P.plus(1), N, "next = prev+1")], "zero"),
+                   ("gap", [B_.ge(N, P.plus(2), "next >= prev+2")], "positive")]
+        problems = []
+        n = 0
+        if body.kind == "closure":
+            rets = [bi for bi, bl in enumerate(body.blocks) if bl["term"] and bl["term"]["k"] == "return" and not bl["cleanup"]]
+            for name, fs, want in regions:
+                reg = RG_.Region(name, fs)
+                vals, und = RG_.values_at(ctx, body, reg, rets[0], sy.local(0))
+                for v in vals or [None]:
+                    n += 1
+                    if v is None:
+                        problems.append("%s: no value" % name)
+                        continue
+                    lv = B_.lin(v)
+                    if want == "zero" and (B_.prove(lv, fs) is None or B_.prove(B_.Lin() - lv, fs) is None):
+                        problems.append("adjacent matches in order are charged %s" % S.show(v, body)[:60])
+                    if want == "positive" and B_.prove(lv.plus(-1), fs + [B_.Fact(B_.Lin({k: 1}), "unsigned") for k in lv.co] * 2) is None:
+                        problems.append("a gap between consecutive matches is not charged (value %s)" % S.show(v, body)[:60])
+        else:
+            hs = sorted(cfg.headers())
+            cvars = [l for l, ds in body.defs().items() if len(ds) > 1 and body.local_ty(l) in ("usize", "isize")
+                     and any(B_.lin(sy.rvalue(nd["rv"])).co.get(("var", l)) == 1 and k == "assign" for k, _, _, nd in ds)]
+            if len(hs) != 1 or len(cvars) != 1:
+                continue
+            h, cv = hs[0], cvars[0]
+            from ..cfg import term_succs
+            latches = [bi for bi in range(len(body.blocks)) if not body.blocks[bi]["cleanup"] and bi != h and
+                       body.blocks[bi]["term"] and h in term_succs(body.blocks[bi]["term"]) and cfg.in_natural_loop(bi, h)]
+            for name, fs, want in regions:
+                reg = RG_.Region(name, fs)
+                paths, und = RG_.feasible_paths(ctx, body, reg, latches)
+                for p in paths or []:
+                    if h not in p:
+                        continue
+                    inloop = p[p.index(h):]
+                    tot = B_.Lin()
+                    for kind, dbi, dsi, nd in body.defs().get(cv, []):
+                        if kind == "assign" and dbi in inloop:
+                            v = RG_.resolve_on_path(body, sy, sy.rvalue(nd["rv"]), p)
+                            tot = tot + (B_.lin(S.strip_sites(v)) - B_.Lin({("var", cv): 1}))
+                    n += 1
+                    if want == "zero" and (B_.prove(tot, fs) is None or B_.prove(B_.Lin() - tot, fs) is None):
+                        problems.append("adjacent matches in order are charged")
+                    if want == "positive" and B_.prove(tot.plus(-1), fs + [B_.Fact(B_.Lin({k: 1}), "unsigned") for k in tot.co] * 2) is None:
+                        problems.append("a gap between consecutive matches is not charged on some path")
+                if not paths:
+                    problems.append("%s: the loop body is not reached" % name)
+        verdicts.append((body, n, problems))
+    # the pair source lists the earlier match first
+    sy = ctx.sym(fb)
+    order_problem = None
+    for bi, t in fb.calls():
+        if U.callee_is(t, "Iterator::zip") and len(t["args"]) == 2:
+            def start_of(a):
+                for x in S.walk(sy.operand(a)):
+                    if isinstance(x, tuple) and x and x[0] == "agg" and x[2].endswith("RangeTo::RangeTo"):
+                        return 0
+                    if isinstance(x, tuple) and x and x[0] == "agg" and x[2].endswith(("RangeFrom::RangeFrom", "Range::Range")) and x[3] \
+                            and U.is_const(x[3][0]):
+                        return S.const_value(x[3][0])
+                return None
+            s0, s1 = start_of(t["args"][0]), start_of(t["args"][1])
+            if s0 is not None and s1 is not None and not (s0 == 0 and s1 == 1):
+                order_problem = "the zipped slices start at %s and %s (expected 0 and 1): prev / next are swapped or shifted" % (s0, s1)
+    if not verdicts:
+        ctx.fail(rule, key, fb.where(), "score_trans_down: the per-pair penalty (offsets of a (prev, next) pair) was not recognised (fail closed)")
+        return
+    body, n, problems = verdicts[0]
+    if order_problem:
+        problems = problems + [order_problem]
+    if not problems and n:
+        ctx.ok(rule, key, body.where(), "a pair of consecutive matches adds 0 when adjacent in order and at least 1 when there is a gap "
+               "(%d path values, both regions)" % n, nontrivial=True)
+    else:
+        ctx.fail(rule, key, body.where(), "score_trans_down: %s" % "; ".join(sorted(set(problems))[:2] or ["no path evaluated"]),
+                 {"witness": "'u v x' no longer outranks 'u x v' for the query 'u v'"})
